@@ -591,6 +591,434 @@ pub fn corpus() -> Vec<Dag> {
     ]
 }
 
+
+// ---------------------------------------------------------------------------------------------
+// real GPOS lookups that the packer has to SPLIT (and promote), embedded under a custom root with
+// sibling blobs behind 16-bit links whose size sweeps the window where the layout stops fitting.
+// Oracle: read the output back by the declared formats (read-fonts) and compare every record,
+// incl. every device / VariationIndex offset inside value records, with the INPUT description.
+pub mod gpos_split {
+    use super::*;
+    use read_fonts::tables::gpos as rg;
+    use read_fonts::{FontData, FontRead};
+    use write_fonts::tables::gpos as wg;
+    use write_fonts::tables::layout as wl;
+    use write_fonts::types::GlyphId16;
+
+    pub const PP1: u8 = 1;
+    pub const PP2: u8 = 2;
+    pub const MARKBASE: u8 = 3;
+
+    /// semantic description of one splittable lookup
+    #[derive(Clone, Debug)]
+    pub struct Spec {
+        pub kind: u8,
+        pub fmt1: u16,
+        pub fmt2: u16,
+        /// first glyphs / class1 count / base glyphs
+        pub n1: u16,
+        /// second glyphs per first / class2 count / mark classes
+        pub n2: u16,
+        pub salt: u32,
+        /// out of 8: how many records carry a device where the format has one
+        pub dev_density: u32,
+    }
+
+    fn h(spec: &Spec, a: u32, b: u32, c: u32) -> u32 {
+        let mut x = spec.salt ^ a.wrapping_mul(0x9E37_79B1) ^ b.wrapping_mul(0x85EB_CA6B) ^ c.wrapping_mul(0xC2B2_AE35);
+        x ^= x >> 15;
+        x = x.wrapping_mul(0x2C1B_3C6D);
+        x ^= x >> 12;
+        x
+    }
+
+    /// resolved value record: scalar fields and devices as declared by the format
+    #[derive(Clone, Debug, PartialEq, Eq)]
+    pub struct Val {
+        pub scalars: [Option<i16>; 4],
+        /// Some(None) = field in format with a null offset
+        pub devices: [Option<Option<(u16, u16)>>; 4],
+    }
+
+    pub fn expected_val(spec: &Spec, a: u32, b: u32, which: u32) -> Val {
+        let fmt = if which == 1 { spec.fmt1 } else { spec.fmt2 };
+        let mut v = Val { scalars: [None; 4], devices: [None; 4] };
+        for f in 0..4u32 {
+            if fmt & (1 << f) != 0 {
+                v.scalars[f as usize] = Some((h(spec, a, b, which * 16 + f) % 2001) as i16 - 1000);
+            }
+            if fmt & (0x10 << f) != 0 {
+                let x = h(spec, a, b, which * 16 + 8 + f);
+                v.devices[f as usize] = Some(if x % 8 < spec.dev_density { Some(((x >> 8) % 6) as u16).map(|o| (o, ((x >> 16) % 40) as u16)) } else { None });
+            }
+        }
+        v
+    }
+
+    fn to_write_rec(v: &Val, fmt: u16) -> wg::ValueRecord {
+        let mut r = wg::ValueRecord::new().with_explicit_value_format(rg::ValueFormat::from_bits_truncate(fmt));
+        if let Some(x) = v.scalars[0] { r = r.with_x_placement(x); }
+        if let Some(x) = v.scalars[1] { r = r.with_y_placement(x); }
+        if let Some(x) = v.scalars[2] { r = r.with_x_advance(x); }
+        if let Some(x) = v.scalars[3] { r = r.with_y_advance(x); }
+        let vi = |d: (u16, u16)| wl::VariationIndex::new(d.0, d.1);
+        if let Some(Some(d)) = v.devices[0] { r = r.with_x_placement_device(vi(d)); }
+        if let Some(Some(d)) = v.devices[1] { r = r.with_y_placement_device(vi(d)); }
+        if let Some(Some(d)) = v.devices[2] { r = r.with_x_advance_device(vi(d)); }
+        if let Some(Some(d)) = v.devices[3] { r = r.with_y_advance_device(vi(d)); }
+        r
+    }
+
+    const G1: u16 = 10; // first glyph of the first-glyph range
+    const G2: u16 = 3000; // first glyph of the second-glyph range
+    const PER_CLASS1: u16 = 2;
+
+    pub fn anchor_xy(spec: &Spec, a: u32, b: u32, c: u32) -> Option<(i16, i16)> {
+        let x = h(spec, a, b, c);
+        if c == 7 && x % 16 == 0 { return None; } // a few null base anchors
+        Some(((x % 4001) as i16 - 2000, ((x >> 12) % 4001) as i16 - 2000))
+    }
+
+    pub fn build_lookup(spec: &Spec) -> wg::PositionLookup {
+        use read_fonts::tables::layout::LookupFlag;
+        match spec.kind {
+            PP1 => {
+                let coverage = (0..spec.n1).map(|i| GlyphId16::new(G1 + i)).collect();
+                let pair_sets = (0..spec.n1).map(|a| {
+                    wg::PairSet::new((0..spec.n2).map(|b| {
+                        wg::PairValueRecord::new(GlyphId16::new(G2 + b),
+                            to_write_rec(&expected_val(spec, a as u32, b as u32, 1), spec.fmt1),
+                            to_write_rec(&expected_val(spec, a as u32, b as u32, 2), spec.fmt2))
+                    }).collect())
+                }).collect();
+                wg::PositionLookup::Pair(wl::Lookup::new(LookupFlag::empty(), vec![wg::PairPos::format_1(coverage, pair_sets)]))
+            }
+            PP2 => {
+                let class_def1: wl::ClassDef = (0..spec.n1 * PER_CLASS1).map(|i| (GlyphId16::new(G1 + i), i / PER_CLASS1)).collect();
+                let class_def2: wl::ClassDef = (0..spec.n2).map(|i| (GlyphId16::new(G2 + i), i)).collect();
+                let coverage: wl::CoverageTable = (0..spec.n1 * PER_CLASS1).map(|i| GlyphId16::new(G1 + i)).collect();
+                let recs = (0..spec.n1).map(|a| {
+                    wg::Class1Record::new((0..spec.n2).map(|b| {
+                        wg::Class2Record::new(to_write_rec(&expected_val(spec, a as u32, b as u32, 1), spec.fmt1),
+                                              to_write_rec(&expected_val(spec, a as u32, b as u32, 2), spec.fmt2))
+                    }).collect())
+                }).collect();
+                wg::PositionLookup::Pair(wl::Lookup::new(LookupFlag::empty(), vec![wg::PairPos::format_2(coverage, class_def1, class_def2, recs)]))
+            }
+            _ => {
+                // n1 base glyphs, n2 mark classes, 3 mark glyphs per class
+                let n_marks = spec.n2 * 3;
+                let mark_cov: wl::CoverageTable = (0..n_marks).map(|m| GlyphId16::new(G2 + m)).collect();
+                let base_cov: wl::CoverageTable = (0..spec.n1).map(|b| GlyphId16::new(G1 + b)).collect();
+                let marks = (0..n_marks).map(|m| {
+                    let (x, y) = anchor_xy(spec, m as u32, 0, 1).unwrap();
+                    wg::MarkRecord::new(m % spec.n2, wg::AnchorTable::format_1(x, y))
+                }).collect();
+                let bases = (0..spec.n1).map(|b| {
+                    wg::BaseRecord::new((0..spec.n2).map(|c| anchor_xy(spec, b as u32, c as u32, 7).map(|(x, y)| wg::AnchorTable::format_1(x, y))).collect())
+                }).collect();
+                wg::PositionLookup::MarkToBase(wl::Lookup::new(LookupFlag::empty(),
+                    vec![wg::MarkBasePosFormat1::new(mark_cov, base_cov, wg::MarkArray::new(marks), wg::BaseArray::new(bases))]))
+            }
+        }
+    }
+
+    /// root object: 16-bit offsets to the lookup list and to sibling blobs, in a given order
+    pub struct GRoot {
+        pub lookups: wg::PositionLookupList,
+        /// (blob before the lookup-list offset?, fill, size)
+        pub blobs: Vec<(bool, u8, usize)>,
+    }
+    pub struct Blob(pub u8, pub usize);
+    impl FontWrite for Blob {
+        fn write_into(&self, w: &mut TableWriter) {
+            let v: Vec<u8> = (0..self.1).map(|i| (i as u8).wrapping_mul(13).wrapping_add(self.0) | 1).collect();
+            w.write_slice(&v);
+        }
+    }
+    impl Validate for Blob {
+        fn validate_impl(&self, _ctx: &mut ValidationCtx) {}
+    }
+    impl FontWrite for GRoot {
+        fn write_into(&self, w: &mut TableWriter) {
+            for (before, fill, size) in &self.blobs {
+                if *before { w.write_offset(&Blob(*fill, *size), 2); }
+            }
+            w.write_offset(&self.lookups, 2);
+            for (before, fill, size) in &self.blobs {
+                if !*before { w.write_offset(&Blob(*fill, *size), 2); }
+            }
+        }
+    }
+    impl Validate for GRoot {
+        fn validate_impl(&self, _ctx: &mut ValidationCtx) {}
+    }
+
+    fn read_val(r: &read_fonts::tables::gpos::ValueRecord, data: FontData) -> Result<Val, String> {
+        let dev = |d: Option<Result<rg::DeviceOrVariationIndex, read_fonts::ReadError>>, present: bool| -> Result<Option<Option<(u16, u16)>>, String> {
+            if !present { return Ok(None); }
+            match d {
+                None => Ok(Some(None)),
+                Some(Ok(rg::DeviceOrVariationIndex::VariationIndex(v))) => Ok(Some(Some((v.delta_set_outer_index(), v.delta_set_inner_index())))),
+                Some(Ok(_)) => Err("device offset lands on something that is not a VariationIndex table".into()),
+                Some(Err(e)) => Err(format!("device offset does not resolve: {e}")),
+            }
+        };
+        let f = r.format.bits();
+        Ok(Val {
+            scalars: [r.x_placement(), r.y_placement(), r.x_advance(), r.y_advance()],
+            devices: [dev(r.x_placement_device(data), f & 0x10 != 0)?, dev(r.y_placement_device(data), f & 0x20 != 0)?,
+                      dev(r.x_advance_device(data), f & 0x40 != 0)?, dev(r.y_advance_device(data), f & 0x80 != 0)?],
+        })
+    }
+
+    /// Err((class, detail)) when the output does not contain the input
+    pub fn verify(spec: &Spec, root: &GRoot, out: &[u8]) -> Result<usize, (String, String)> {
+        let e = |c: &str, d: String| (c.to_string(), d);
+        let rd = |pos: usize| -> Result<usize, (String, String)> {
+            out.get(pos..pos + 2).map(|b| u16::from_be_bytes([b[0], b[1]]) as usize).ok_or_else(|| e("root", format!("root offset field {pos} beyond output")))
+        };
+        // root fields in writing order
+        let mut pos = 0;
+        let mut lookups_off = 0;
+        let mut order: Vec<Option<(u8, usize)>> = vec![];
+        for (b, f, s) in &root.blobs { if *b { order.push(Some((*f, *s))); } }
+        order.push(None);
+        for (b, f, s) in &root.blobs { if !*b { order.push(Some((*f, *s))); } }
+        for it in order {
+            let off = rd(pos)?;
+            pos += 2;
+            match it {
+                None => lookups_off = off,
+                Some((fill, size)) => {
+                    let sl = out.get(off..off + size).ok_or_else(|| e("blob", format!("blob offset {off} + {size} beyond output")))?;
+                    if let Some(i) = sl.iter().enumerate().position(|(i, x)| *x != ((i as u8).wrapping_mul(13).wrapping_add(fill) | 1)) {
+                        return Err(e("blob", format!("offset to blob {fill} lands on different bytes (index {i})")));
+                    }
+                }
+            }
+        }
+        let list = rg::PositionLookupList::read(FontData::new(out.get(lookups_off..).ok_or_else(|| e("root", "lookup list offset beyond output".into()))?))
+            .map_err(|x| e("read", format!("lookup list: {x}")))?;
+        if list.lookup_count() != 1 { return Err(e("structure", format!("{} lookups", list.lookup_count()))); }
+        let lookup = list.lookups().get(0).map_err(|x| e("read", format!("lookup: {x}")))?;
+        let subs = lookup.subtables().map_err(|x| e("read", format!("subtables: {x}")))?;
+        let fmt1 = rg::ValueFormat::from_bits_truncate(spec.fmt1);
+        let fmt2 = rg::ValueFormat::from_bits_truncate(spec.fmt2);
+        match (spec.kind, subs) {
+            (PP1, rg::PositionSubtables::Pair(subs)) => {
+                let mut seen = std::collections::HashSet::new();
+                let mut nsub = 0;
+                for sub in subs.iter() {
+                    nsub += 1;
+                    let rg::PairPos::Format1(sub) = sub.map_err(|x| e("read", format!("subtable: {x}")))? else { return Err(e("structure", "format changed".into())); };
+                    if sub.value_format1() != fmt1 || sub.value_format2() != fmt2 { return Err(e("structure", "value formats changed".into())); }
+                    let cov = sub.coverage().map_err(|x| e("read", format!("coverage: {x}")))?;
+                    let sets = sub.pair_sets();
+                    if cov.iter().count() != sub.pair_set_count() as usize { return Err(e("coverage", "coverage count != pair set count".into())); }
+                    for (i, g1) in cov.iter().enumerate() {
+                        let a = g1.to_u16().wrapping_sub(G1) as u32;
+                        let set = sets.get(i).map_err(|x| e("read", format!("pair set {i}: {x}")))?;
+                        for rec in set.pair_value_records().iter() {
+                            let rec = rec.map_err(|x| e("read", format!("pair value record: {x}")))?;
+                            let b = rec.second_glyph().to_u16().wrapping_sub(G2) as u32;
+                            if a >= spec.n1 as u32 || b >= spec.n2 as u32 { return Err(e("value", format!("unknown pair {a}/{b}"))); }
+                            if !seen.insert((a, b)) { return Err(e("coverage", format!("pair {a}/{b} present twice"))); }
+                            let v1 = read_val(rec.value_record1(), set.offset_data()).map_err(|d| e("device", format!("pair {a}/{b}: {d}")))?;
+                            let v2 = read_val(rec.value_record2(), set.offset_data()).map_err(|d| e("device", format!("pair {a}/{b}: {d}")))?;
+                            if v1 != expected_val(spec, a, b, 1) || v2 != expected_val(spec, a, b, 2) {
+                                let cls = if v1.scalars != expected_val(spec, a, b, 1).scalars || v2.scalars != expected_val(spec, a, b, 2).scalars { "value" } else { "device" };
+                                return Err(e(cls, format!("pair {a}/{b}: got {:?} {:?}", v1, v2)));
+                            }
+                        }
+                    }
+                }
+                if seen.len() != spec.n1 as usize * spec.n2 as usize { return Err(e("coverage", format!("{} of {} pairs present", seen.len(), spec.n1 as usize * spec.n2 as usize))); }
+                Ok(nsub)
+            }
+            (PP2, rg::PositionSubtables::Pair(subs)) => {
+                let mut parsed = vec![];
+                for sub in subs.iter() {
+                    let rg::PairPos::Format2(sub) = sub.map_err(|x| e("read", format!("subtable: {x}")))? else { return Err(e("structure", "format changed".into())); };
+                    parsed.push(sub);
+                }
+                for a in 0..spec.n1 {
+                    for k in 0..PER_CLASS1 {
+                        let g1 = GlyphId16::new(G1 + a * PER_CLASS1 + k);
+                        let mut covering = parsed.iter().filter(|s| s.coverage().map(|c| c.get(g1).is_some()).unwrap_or(false));
+                        let sub = covering.next().ok_or_else(|| e("coverage", format!("glyph of class1 {a} not covered")))?;
+                        if covering.next().is_some() { return Err(e("coverage", format!("glyph of class1 {a} covered twice"))); }
+                        if sub.value_format1() != fmt1 || sub.value_format2() != fmt2 || sub.class2_count() != spec.n2 { return Err(e("structure", "formats / class2 count changed".into())); }
+                        if k > 0 { continue; }
+                        let c1 = sub.class_def1().map_err(|x| e("read", format!("classdef1: {x}")))?.get(g1);
+                        let cd2 = sub.class_def2().map_err(|x| e("read", format!("classdef2: {x}")))?;
+                        let c1rec = sub.class1_records().get(c1 as usize).map_err(|x| e("read", format!("class1 record {c1}: {x}")))?;
+                        for b in 0..spec.n2 {
+                            let c2 = cd2.get(GlyphId16::new(G2 + b));
+                            if c2 != b { return Err(e("value", format!("class2 of glyph {b} is {c2}"))); }
+                            let rec = c1rec.class2_records().get(c2 as usize).map_err(|x| e("read", format!("class2 record: {x}")))?;
+                            let v1 = read_val(rec.value_record1(), sub.offset_data()).map_err(|d| e("device", format!("classes {a}/{b}: {d}")))?;
+                            let v2 = read_val(rec.value_record2(), sub.offset_data()).map_err(|d| e("device", format!("classes {a}/{b}: {d}")))?;
+                            let (e1, e2) = (expected_val(spec, a as u32, b as u32, 1), expected_val(spec, a as u32, b as u32, 2));
+                            if v1 != e1 || v2 != e2 {
+                                let cls = if v1.scalars != e1.scalars || v2.scalars != e2.scalars { "value" } else { "device" };
+                                return Err(e(cls, format!("classes {a}/{b}: got {:?} {:?} expected {:?} {:?}", v1, v2, e1, e2)));
+                            }
+                        }
+                    }
+                }
+                Ok(parsed.len())
+            }
+            (MARKBASE, rg::PositionSubtables::MarkToBase(subs)) => {
+                let mut parsed = vec![];
+                for sub in subs.iter() {
+                    parsed.push(sub.map_err(|x| e("read", format!("subtable: {x}")))?);
+                }
+                let anchor = |a: Result<rg::AnchorTable, read_fonts::ReadError>| -> Result<(i16, i16), (String, String)> {
+                    match a.map_err(|x| e("read", format!("anchor: {x}")))? {
+                        rg::AnchorTable::Format1(t) => Ok((t.x_coordinate(), t.y_coordinate())),
+                        _ => Err(e("value", "anchor format changed".into())),
+                    }
+                };
+                for m in 0..spec.n2 * 3 {
+                    let gm = GlyphId16::new(G2 + m);
+                    let mut covering = parsed.iter().filter(|s| s.mark_coverage().map(|c| c.get(gm).is_some()).unwrap_or(false));
+                    let sub = covering.next().ok_or_else(|| e("coverage", format!("mark {m} not covered")))?;
+                    if covering.next().is_some() { return Err(e("coverage", format!("mark {m} covered twice"))); }
+                    let mi = sub.mark_coverage().unwrap().get(gm).unwrap() as usize;
+                    let marr = sub.mark_array().map_err(|x| e("read", format!("mark array: {x}")))?;
+                    let mrec = marr.mark_records().get(mi).ok_or_else(|| e("read", "mark record index".into()))?;
+                    let cls = mrec.mark_class();
+                    if cls >= sub.mark_class_count() { return Err(e("value", format!("mark {m}: class {cls} >= count"))); }
+                    if anchor(mrec.mark_anchor(marr.offset_data()))? != anchor_xy(spec, m as u32, 0, 1).unwrap() { return Err(e("value", format!("mark {m}: anchor differs"))); }
+                    let orig_class = (m % spec.n2) as u32;
+                    let bcov = sub.base_coverage().map_err(|x| e("read", format!("base coverage: {x}")))?;
+                    let barr = sub.base_array().map_err(|x| e("read", format!("base array: {x}")))?;
+                    for b in 0..spec.n1 {
+                        let exp = anchor_xy(spec, b as u32, orig_class, 7);
+                        let got = match bcov.get(GlyphId16::new(G1 + b)) {
+                            None => None,
+                            Some(bi) => {
+                                let brec = barr.base_records().get(bi as usize).map_err(|x| e("read", format!("base record: {x}")))?;
+                                match brec.base_anchors(barr.offset_data()).get(cls as usize) {
+                                    None => None,
+                                    Some(a) => Some(anchor(a)?),
+                                }
+                            }
+                        };
+                        if got != exp { return Err(e("value", format!("mark {m} base {b}: got {:?} expected {:?}", got, exp))); }
+                    }
+                }
+                Ok(parsed.len())
+            }
+            _ => Err(e("structure", "lookup type changed".into())),
+        }
+    }
+
+    #[derive(Debug)]
+    pub enum Res { Ok(usize), Err, Fail(String, String) }
+
+    pub fn run_one(spec: &Spec, lookup: &wg::PositionLookup, blobs: &[(bool, u8, usize)]) -> Res {
+        let root = GRoot { lookups: wl::LookupList::new(vec![lookup.clone()]), blobs: blobs.to_vec() };
+        match catch(std::panic::AssertUnwindSafe(|| dump_table(&root))) {
+            Err(p) => Res::Fail(format!("panic:{}", p.chars().take(48).collect::<String>()), p),
+            Ok(Err(write_fonts::error::Error::PackingFailed(_))) => Res::Err,
+            Ok(Err(x)) => Res::Fail("other-error".into(), format!("{x}")),
+            Ok(Ok(bytes)) => match verify(spec, &root, &bytes) {
+                Ok(n) => Res::Ok(n),
+                Err((c, d)) => Res::Fail(c, d),
+            },
+        }
+    }
+
+    pub fn gen_spec(rng: &mut Rng) -> Spec {
+        let kind = *rng.pick(&[PP1, PP1, PP2, PP2, PP2, MARKBASE]);
+        let scalar_sets = [0x4u16, 0x5, 0xF, 0x1, 0x6, 0x0];
+        let dev_sets = [0u16, 0, 0x10, 0x20, 0x40, 0x80, 0x30, 0xC0, 0x50, 0xA0, 0xF0];
+        let mut fmt1 = *rng.pick(&scalar_sets) | *rng.pick(&dev_sets);
+        if fmt1 == 0 { fmt1 = 0x4; }
+        let fmt2 = if rng.chance(1, 2) { 0 } else { *rng.pick(&scalar_sets) | if rng.chance(1, 3) { *rng.pick(&dev_sets) } else { 0 } };
+        let rec_len = 2 * (fmt1.count_ones() + fmt2.count_ones()) as usize;
+        let target = 70_000 + rng.below(60_000) as usize;
+        let (n1, n2) = match kind {
+            PP1 => { let n2 = 3 + rng.below(6) as usize; ((target / (n2 * (2 + rec_len) + 4)).clamp(50, 4000), n2) }
+            PP2 => { let n2 = 20 + rng.below(90) as usize; ((target / (n2 * rec_len.max(2))).clamp(4, 1500), n2) }
+            _ => { let n2 = 4 + rng.below(8) as usize; ((target / (n2 * 8)).clamp(100, 3000), n2) }
+        };
+        Spec { kind, fmt1, fmt2, n1: n1 as u16, n2: n2 as u16, salt: rng.next_u32(), dev_density: *rng.pick(&[0u32, 1, 4, 7, 8]) }
+    }
+
+    /// boundary-seeking sweep: find where the sibling blob's size makes packing stop to fit, then probe densely
+    pub fn stream(cx: &mut Ctx, rng: &mut Rng, n_specs: usize) {
+        // (1) format matrix: every subset of the four device flags, in the first and in the second value record,
+        //     for both PairPos formats, with null and non-null devices mixed: one compilation each (must split)
+        for kind in [PP1, PP2] {
+            for devbits in 0..16u16 {
+                for which in [1u32, 2] {
+                    let scal = *rng.pick(&[0u16, 0x4, 0x1, 0x5, 0x6, 0xF]);
+                    let this = scal | (devbits << 4);
+                    let other = *rng.pick(&[0u16, 0x4, 0x5]);
+                    let (mut fmt1, fmt2) = if which == 1 { (this, other) } else { (other, this) };
+                    if fmt1 == 0 && fmt2 == 0 { fmt1 = 0x4; }
+                    let rec_len = 2 * (fmt1.count_ones() + fmt2.count_ones()) as usize;
+                    let target = 68_000 + rng.below(20_000) as usize;
+                    let (n1, n2) = if kind == PP1 { let n2 = 3 + rng.below(4) as usize; (target / (n2 * (2 + rec_len) + 4), n2) }
+                                   else { let n2 = 20 + rng.below(60) as usize; (target / (n2 * rec_len.max(2)), n2) };
+                    let spec = Spec { kind, fmt1, fmt2, n1: n1.clamp(4, 4000) as u16, n2: n2 as u16, salt: rng.next_u32(), dev_density: *rng.pick(&[1u32, 4, 7]) };
+                    let lookup = build_lookup(&spec);
+                    let blobs = vec![(rng.chance(1, 2), 5u8, *rng.pick(&[8usize, 1000, 20_000]))];
+                    let r = run_one(&spec, &lookup, &blobs);
+                    let kindname = if kind == PP1 { "pairpos1" } else { "pairpos2" };
+                    cx.st.evaluations += 1;
+                    cx.st.count(&format!("gpos.matrix.{kindname}.{}", match &r { Res::Ok(n) if *n > 1 => "ok_split", Res::Ok(_) => "ok_unsplit", Res::Err => "packing_failed", Res::Fail(..) => "FAIL" }));
+                    if let Res::Fail(class, detail) = &r {
+                        cx.st.oracle_failure(json!({"key": format!("gpos:{kindname}:{class}"), "spec": format!("{:?}", spec), "blobs": format!("{:?}", blobs), "why": detail}));
+                    }
+                    cx.st.nontrivial(&format!("{:?}", spec));
+                }
+            }
+        }
+        // (2) boundary-seeking sweeps
+        for _ in 0..n_specs {
+            let spec = gen_spec(rng);
+            let lookup = build_lookup(&spec);
+            let before = rng.chance(1, 2);
+            let extra: Vec<(bool, u8, usize)> = if rng.chance(1, 3) { vec![(rng.chance(1, 2), 9, *rng.pick(&[1usize, 100, 3000]))] } else { vec![] };
+            let mk = |size: usize| { let mut b = extra.clone(); b.push((before, 3, size)); b };
+            let kindname = match spec.kind { PP1 => "pairpos1", PP2 => "pairpos2", _ => "markbase" };
+            let mut report = |cx: &mut Ctx, size: usize, r: &Res| {
+                cx.st.evaluations += 1;
+                cx.st.count(&format!("gpos.{kindname}.{}", match r { Res::Ok(n) if *n > 1 => "ok_split", Res::Ok(_) => "ok_unsplit", Res::Err => "packing_failed", Res::Fail(..) => "FAIL" }));
+                if let Res::Fail(class, detail) = r {
+                    cx.st.oracle_failure(json!({"key": format!("gpos:{kindname}:{class}"), "spec": format!("{:?}", spec), "blob_size": size, "blob_before": before, "extra": format!("{:?}", extra), "why": detail}));
+                }
+            };
+            cx.st.nontrivial(&format!("{:?}", spec));
+            // without sibling pressure
+            let r0 = run_one(&spec, &lookup, &mk(8));
+            report(cx, 8, &r0);
+            cx.st.sample(json!({"kind": "gpos_split", "spec": format!("{:?}", spec), "result": format!("{:?}", r0)}));
+            // binary search for the largest blob size that still packs
+            let (mut lo, mut hi) = (60_000usize, 65_600usize);
+            let rlo = run_one(&spec, &lookup, &mk(lo));
+            report(cx, lo, &rlo);
+            if !matches!(rlo, Res::Ok(_)) { continue; }
+            while hi - lo > 1 {
+                let mid = (lo + hi) / 2;
+                let r = run_one(&spec, &lookup, &mk(mid));
+                report(cx, mid, &r);
+                if matches!(r, Res::Ok(_)) { lo = mid } else { hi = mid }
+            }
+            // dense probe around the boundary (every size: the gate's arithmetic must agree with serialize byte for byte)
+            for size in lo.saturating_sub(4)..=(lo + 24).min(65_700) {
+                let r = run_one(&spec, &lookup, &mk(size));
+                report(cx, size, &r);
+            }
+            cx.st.count("gpos.boundaries_probed");
+        }
+    }
+}
+
 pub struct Ctx {
     pub st: Stats,
     pub cw: CaseWriter,
@@ -829,6 +1257,8 @@ fn main() {
             run_case(&mut cx, &d, "exhaustive4", true);
         });
     }
+    // 6b. real GPOS lookups that must be split/promoted, under a custom root with sibling blobs (oracle only)
+    gpos_split::stream(&mut cx, &mut rng, if thorough { 60 } else { 8 });
     // 7. oracle-only: larger graphs (not sent to Coq)
     for _ in 0..1500 * scale {
         let n = 4 + rng.below(10) as usize;
